@@ -9,10 +9,10 @@ func reformatDescription(input string, maxWidth int) []string {
 	linesOut := []string{}
 
 	pend := ""
-	lastWasEmpty := false
-	for idx, line := range lines {
+	lastWasEmpty := true // leading empty lines are dropped
+	for _, line := range lines {
 
-		if idx > 0 && strings.TrimSpace(line) == "" {
+		if strings.TrimSpace(line) == "" {
 			if pend != "" {
 				linesOut = append(linesOut, pend)
 				pend = ""
@@ -26,7 +26,7 @@ func reformatDescription(input string, maxWidth int) []string {
 		}
 		lastWasEmpty = false
 
-		words := strings.Split(line, " ")
+		words := strings.Fields(line)
 		for _, word := range words {
 			if pend == "" {
 				pend = word
